@@ -22,7 +22,7 @@ VARIABLES pc, holder, depth, mver, lockedV, seenV, wire, sched
 vars == <<pc, holder, depth, mver, lockedV, seenV, wire, sched>>
 
 T == DOMAIN Prog
-Locks == {"tr", "mdib", "txid", "cons"}
+Locks == {"tr", "mdib", "txid", "cons", "tab"}
 Free == 0
 Reentrant(lk) == lk = "mdib"
 
